@@ -1,7 +1,7 @@
 From Coq Require Import ZArith List Bool Arith.
 From Coq Require Import ExtrOcamlBasic.
 From Falcon.lib Require Import Wire.
-From Falcon.C12 Require Import Model Spec Json.
+From Falcon.C12 Require Import Model Spec Json Form.
 Import ListNotations.
 Open Scope Z_scope.
 
@@ -120,6 +120,12 @@ Definition d_fval (v : val) : fval :=
   | _ => FStr []
   end.
 
+Definition v_fval (f : fval) : val :=
+  match f with FStr s => L [I 0; vstr s] | FSeq l => L [I 1; vlist vstr l] end.
+Definition v_mapping (m : list (list N * fval)) : val := vlist (vpair vstr v_fval) m.
+Definition v_form_res (r : form_res) : val :=
+  match r with FOk m => L [I 0; v_mapping m] | FMalformed => L [I 2] | FNotModelled => L [I 9] end.
+
 Definition run_codec (v : val) : val :=
   match v with
   | L [I 10; d] => vstr (print (d_jv d))
@@ -129,6 +135,9 @@ Definition run_codec (v : val) : val :=
   | L [I 14; b] => v_deser (json_deserialize_body (dstr b))
   | L [I 15; s] => vopt vstr (utf8_encode (dstr s))
   | L [I 16; b] => vopt vstr (utf8_decode (dstr b))
+  | L [I 18; s] => vopt vstr (decode (dstr s))
+  | L [I 19; kb; s] => vopt v_mapping (parse_qs (dbool kb) (dstr s))
+  | L [I 20; kb; b] => v_form_res (form_deserialize_body (dbool kb) (dstr b))
   | L [I 17; m] => vopt vstr (form_print (dlist (fun kv => (dstr (nth_val 0 kv), d_fval (nth_val 1 kv))) m))
   | _ => L [I (-1)]
   end.
